@@ -177,6 +177,7 @@ func (ms *midstream) run(f fault, idx int, scratch string) error {
 		fate := qL.fate()
 		c.Eval(fmt.Sprintf("midstream|%s|%s|remote-handle", f.Name, src), true)
 		c.Add("midstream_fate:"+fate, 1)
+		c.Logf("fault %s, `%s`: direct access delivers %d of %d values, error: %v", f.Name, src, len(qL.Vals), 3*n, qL.Err)
 		if fate == "fail" && len(qL.Vals) > 0 {
 			c.Add("midstream_error_after_output", 1)
 		}
@@ -213,6 +214,9 @@ func (ms *midstream) run(f fault, idx int, scratch string) error {
 			for _, cm := range ctrlModes {
 				if cm == "" && rf.Name != "zng" && rf.Name != "json" {
 					continue
+				}
+				if qi == 1 && !rf.InBand && rf.Name != "zson" {
+					continue // the multi-channel query: labelled formats and one unlabelled one
 				}
 				raw, err := rawQuery(ctx, p.R.url, src, rf, cm)
 				if err != nil {
